@@ -715,4 +715,25 @@ def build():
     p.structural = [wrappers_accept_every_keyword, function_attributes_never_override_wrapper_state]
     p.spec_funcs["dumped_key"] = lambda interp: key_of([e for e in interp.ctx.events if e[0] == "dump_item"][0][1])
     p.spec_funcs["same"] = lambda interp, a, b: a is b or (isinstance(a, tuple) and isinstance(b, tuple) and all(x is y or ops.identical(x, y) is True for x, y in zip(a, b)))
+    # ------------------------------------------------------------------ entry points: pure delegation with the caller's own arguments
+    ua, ub = Opaque("userarg", "a"), Opaque("userarg", "b")
+    # (MemorizedFunc.__call__ / call_and_shelve are under contract above, through the contract of _cached_call)
+    p.spec_funcs["is_tag"] = lambda interp, o, tag: isinstance(o, Opaque) and o.tag == tag
+    p.spec_funcs["n_events"] = lambda interp, name: sum(1 for e in interp.ctx.events if e[0] == name)
+    p.spec_funcs["ev_named"] = lambda interp, name: PyList([e for e in interp.ctx.events if e[0] == name])
+    # the uncached wrapper (Memory(location=None)): the function itself, same arguments, no caching layer
+    p.models["plainfunc.__call__"] = lambda i, fv, a, k: (i.ctx.events.append(("plain-call", tuple(a), dict(k))), Opaque("plain-result", None))[1]
+    p.models["new:NotMemorizedResult"] = lambda i, a, k: Opaque("not-memorized-result", None, value=a[0])
+    p.add(Contract(
+        MEM, "NotMemorizedFunc.__call__", props=["C02", "C06"],
+        params=dict(self=ObjOf("NotMemorizedFunc", func=OpaqueOf("plainfunc")), args=(ua,), kwargs=PyDict({"k": ub})),
+        ensures={"the_functions_own_value": "is_tag(result, 'plain-result')"},
+        ensures_body={"called_once_with_the_callers_arguments": "n_events('plain-call') == 1 and ev_named('plain-call')[0][1] == args"},
+    ))
+    p.add(Contract(
+        MEM, "NotMemorizedFunc.call_and_shelve", props=["C02", "C06"],
+        params=dict(self=ObjOf("NotMemorizedFunc", func=OpaqueOf("plainfunc")), args=(ua,), kwargs=PyDict({"k": ub})),
+        ensures={"wraps_the_functions_own_value": "is_tag(result, 'not-memorized-result') and is_tag(result.value, 'plain-result')"},
+        ensures_body={"called_once_with_the_callers_arguments": "n_events('plain-call') == 1 and ev_named('plain-call')[0][1] == args"},
+    ))
     return p
